@@ -76,6 +76,9 @@ pub fn pos(b: &Board) -> String {
     let en = match &moves {
         None => "PANIC".to_string(),
         Some(ms) if ms.len() > 256 => "SKIP".to_string(),
+        #[cfg(not(has_enumerate_moves))]
+        Some(_) => "SKIP".to_string(),
+        #[cfg(has_enumerate_moves)]
         Some(ms) => {
             #[allow(deprecated)]
             let r = guard(|| {
@@ -268,7 +271,8 @@ pub fn make(b: &Board, m: ChessMove) -> (String, Option<Board>) {
             })
             .unwrap_or(false);
             let sane = guard(|| n.is_sane()).unwrap_or(false);
-            format!("{} same={} sane={}", dump(n), b01(same), b01(sane))
+            let gh = guard(|| n.get_hash());
+            format!("{} same={} sane={} gh={}", dump(n), b01(same), b01(sane), opt(gh.map(hx)))
         }
     };
     (format!("MAKE {} {} => {}", before, mv(m), res), succ)
@@ -281,7 +285,8 @@ pub fn null(b: &Board) -> (String, Option<Board>) {
         Some(None) => ("NONE".to_string(), None),
         Some(Some(n)) => {
             let sane = guard(|| n.is_sane()).unwrap_or(false);
-            (format!("{} sane={}", dump(&n), b01(sane)), Some(n))
+            let gh = guard(|| n.get_hash());
+            (format!("{} sane={} gh={}", dump(&n), b01(sane), opt(gh.map(hx))), Some(n))
         }
     };
     (format!("NULL {} => {}", dump(b), res), nb)
@@ -296,6 +301,7 @@ pub fn safe_board(b: &Board) -> bool {
         let _ = MoveGen::new_legal(b).len();
         let _ = b.status();
         let _ = format!("{}", b);
+        #[cfg(has_enumerate_moves)]
         if ms.len() <= 256 {
             let mut buf = [ChessMove::default(); 256];
             #[allow(deprecated)]
@@ -335,9 +341,14 @@ fn fenp_alt(text: &str, r: &Option<Result<Board, Error>>) -> String {
             }
         };
     }
+    #[cfg(has_from_fen)]
     #[allow(deprecated)]
     {
         chk!("Board::from_fen", Board::from_fen(text.to_string()) == prim);
+    }
+    #[cfg(has_new_from_fen)]
+    #[allow(deprecated)]
+    {
         chk!("Game::new_from_fen", Game::new_from_fen(text).map(|g| g.current_position()) == prim);
     }
     chk!("Game::from_str", {
@@ -479,6 +490,9 @@ pub fn uci(text: &str) -> String {
 
 pub fn sqp(text: &str) -> String {
     let r = guard(|| Square::from_str(text).ok());
+    #[cfg(not(has_from_string))]
+    let alt = "OK";
+    #[cfg(has_from_string)]
     #[allow(deprecated)]
     let alt = match (&r, guard(|| Square::from_string(text.to_string()))) {
         (None, _) => "OK",
@@ -1027,7 +1041,8 @@ pub fn var(b: &Board, b2: &Board, what: &str) -> String {
 
 /// `S<piece 0..5><w|b><sq>` set_piece · `C<sq>` clear_square · `A<w|b><cr>` / `R<w|b><cr>`
 /// add/remove_castle_rights · `a<cr>` / `r<cr>` add/remove_my_… · `t<cr>` / `u<cr>` add/remove_their_…
-#[allow(deprecated)]
+/// A mutator the crate no longer has (they are all deprecated) gives `UNAVAILABLE`.
+#[allow(deprecated, unused_variables, unreachable_code)]
 pub fn edit(b: &Board, cmd: &str) -> String {
     let head = format!("EDIT {} {}", dump(b), cmd);
     let bad = || format!("{} => BADLINE", head);
@@ -1043,7 +1058,8 @@ pub fn edit(b: &Board, cmd: &str) -> String {
             None
         }
     };
-    let r: Option<Option<Board>> = match bytes[0] {
+    // Some(None) = refused, None = panicked, Err(()) = not available in this crate
+    let r: Result<Option<Option<Board>>, ()> = match bytes[0] {
         b'S' if cmd.len() >= 4 => {
             let p = match small(&cmd[1..2], 6) {
                 Some(p) => chess::ALL_PIECES[p],
@@ -1057,14 +1073,28 @@ pub fn edit(b: &Board, cmd: &str) -> String {
                 Some(s) => sq(s),
                 None => return bad(),
             };
-            guard(|| b.set_piece(p, c, s))
+            #[cfg(has_set_piece)]
+            {
+                Ok(guard(|| b.set_piece(p, c, s)))
+            }
+            #[cfg(not(has_set_piece))]
+            {
+                Err(())
+            }
         }
         b'C' => {
             let s = match small(&cmd[1..], 64) {
                 Some(s) => sq(s),
                 None => return bad(),
             };
-            guard(|| b.clear_square(s))
+            #[cfg(has_clear_square)]
+            {
+                Ok(guard(|| b.clear_square(s)))
+            }
+            #[cfg(not(has_clear_square))]
+            {
+                Err(())
+            }
         }
         b'A' | b'R' if cmd.len() == 3 => {
             let c = match parse_color(&cmd[1..2]) {
@@ -1075,33 +1105,97 @@ pub fn edit(b: &Board, cmd: &str) -> String {
                 Some(x) => cr(x),
                 None => return bad(),
             };
-            let add = bytes[0] == b'A';
-            guard(|| {
-                let mut n = *b;
-                if add {
-                    n.add_castle_rights(c, x)
-                } else {
-                    n.remove_castle_rights(c, x)
+            if bytes[0] == b'A' {
+                #[cfg(has_add_castle_rights)]
+                {
+                    Ok(guard(|| {
+                        let mut n = *b;
+                        n.add_castle_rights(c, x);
+                        Some(n)
+                    }))
                 }
-                Some(n)
-            })
+                #[cfg(not(has_add_castle_rights))]
+                {
+                    Err(())
+                }
+            } else {
+                #[cfg(has_remove_castle_rights)]
+                {
+                    Ok(guard(|| {
+                        let mut n = *b;
+                        n.remove_castle_rights(c, x);
+                        Some(n)
+                    }))
+                }
+                #[cfg(not(has_remove_castle_rights))]
+                {
+                    Err(())
+                }
+            }
         }
         b'a' | b'r' | b't' | b'u' if cmd.len() == 2 => {
             let x = match small(&cmd[1..], 4) {
                 Some(x) => cr(x),
                 None => return bad(),
             };
-            let k = bytes[0];
-            guard(|| {
-                let mut n = *b;
-                match k {
-                    b'a' => n.add_my_castle_rights(x),
-                    b'r' => n.remove_my_castle_rights(x),
-                    b't' => n.add_their_castle_rights(x),
-                    _ => n.remove_their_castle_rights(x),
+            match bytes[0] {
+                b'a' => {
+                    #[cfg(has_add_my_castle_rights)]
+                    {
+                        Ok(guard(|| {
+                            let mut n = *b;
+                            n.add_my_castle_rights(x);
+                            Some(n)
+                        }))
+                    }
+                    #[cfg(not(has_add_my_castle_rights))]
+                    {
+                        Err(())
+                    }
                 }
-                Some(n)
-            })
+                b'r' => {
+                    #[cfg(has_remove_my_castle_rights)]
+                    {
+                        Ok(guard(|| {
+                            let mut n = *b;
+                            n.remove_my_castle_rights(x);
+                            Some(n)
+                        }))
+                    }
+                    #[cfg(not(has_remove_my_castle_rights))]
+                    {
+                        Err(())
+                    }
+                }
+                b't' => {
+                    #[cfg(has_add_their_castle_rights)]
+                    {
+                        Ok(guard(|| {
+                            let mut n = *b;
+                            n.add_their_castle_rights(x);
+                            Some(n)
+                        }))
+                    }
+                    #[cfg(not(has_add_their_castle_rights))]
+                    {
+                        Err(())
+                    }
+                }
+                _ => {
+                    #[cfg(has_remove_their_castle_rights)]
+                    {
+                        Ok(guard(|| {
+                            let mut n = *b;
+                            n.remove_their_castle_rights(x);
+                            Some(n)
+                        }))
+                    }
+                    #[cfg(not(has_remove_their_castle_rights))]
+                    {
+                        Err(())
+                    }
+                }
+            }
         }
         _ => return bad(),
     };
@@ -1109,11 +1203,27 @@ pub fn edit(b: &Board, cmd: &str) -> String {
         "{} => {}",
         head,
         match r {
-            None => "PANIC".to_string(),
-            Some(None) => "NONE".to_string(),
-            Some(Some(n)) => dump(&n),
+            Err(()) => "UNAVAILABLE".to_string(),
+            Ok(None) => "PANIC".to_string(),
+            Ok(Some(None)) => "NONE".to_string(),
+            Ok(Some(Some(n))) => format!("{} gh={}", dump(&n), opt(guard(|| n.get_hash()).map(hx))),
         }
     )
+}
+
+/// which EDIT command letters this crate can execute
+pub fn edit_available(letter: char) -> bool {
+    match letter {
+        'S' => cfg!(has_set_piece),
+        'C' => cfg!(has_clear_square),
+        'A' => cfg!(has_add_castle_rights),
+        'R' => cfg!(has_remove_castle_rights),
+        'a' => cfg!(has_add_my_castle_rights),
+        'r' => cfg!(has_remove_my_castle_rights),
+        't' => cfg!(has_add_their_castle_rights),
+        'u' => cfg!(has_remove_their_castle_rights),
+        _ => false,
+    }
 }
 
 /// Edits of one position that keep both kings where they are (the mutators read the king square
@@ -1152,5 +1262,6 @@ pub fn edit_cmds(b: &Board, rng: &mut crate::rng::Rng, n: usize) -> Vec<String> 
             _ => v.push(format!("{}{}", *rng.pick(&['a', 'r', 't', 'u']), rng.below(4))),
         }
     }
+    v.retain(|c| c.chars().next().map(edit_available).unwrap_or(false));
     v
 }
